@@ -91,6 +91,11 @@ CHECKS = {
   text="Exploration: 300 k (quick) / 15 M (thorough) directed matching/precedence documents over labels with multi-character folds, whitespace variants, escaped brackets and non-matching neighbours; closure on spec prefixes, line-structured documents, soup and mutations. Held on the executions observed.",
   note="Trusted: refimpl/label and fixtures/casefold.tsv (Unicode 14.0), restricted per rune to code points on which it agrees with golang.org/x/text (Unicode 13).",
   ref="DESIGN.md section 6 C12"),
+ "C10": dict(
+  technique="runtime monitor with a reference model: an independent ~300-line renderer over the public node API produces fixed / raw / alternative segments for every root block and renderer configuration; the library's bytes must be an instance of them; determinism, tree/Source immutability, block joining and the default-configuration shortcut are asserted on the same executions",
+  text="Exploration: 8 sampled configurations per tree (all 42 on every 16th) over spec prefixes, injection templates, line-structured documents, inline/HTML/injection soup and mutations. Held on the renderings observed.",
+  note="Trusted: refimpl/render and its stated conventions (escape spellings, my own percent-encoder, alt-text rule, either spelling for end tags of filtered elements and for character references in text).",
+  ref="DESIGN.md section 6 C10"),
 }
 
 NOT_YET = {}
